@@ -50,8 +50,48 @@ func (t *TraceWriter) Write(v any) {
 	if bytes.Contains(b, []byte(":null")) { // TLC's Json module cannot read null
 		panic("trace line contains a JSON null: " + string(b[:min(len(b), 300)]))
 	}
-	t.w.Write(b)
+	t.w.Write(clampInts(b))
 	t.w.WriteByte('\n')
+}
+
+// clampInts rewrites every JSON number outside the 32-bit range (TLC integers) to +-2147483647.
+// Virtual time keeps all honest values far inside; only a leak of the wall clock produces such numbers.
+func clampInts(b []byte) []byte {
+	out := make([]byte, 0, len(b))
+	inStr := false
+	for i := 0; i < len(b); i++ {
+		c := b[i]
+		if inStr {
+			out = append(out, c)
+			if c == '\\' && i+1 < len(b) {
+				i++
+				out = append(out, b[i])
+			} else if c == '"' {
+				inStr = false
+			}
+			continue
+		}
+		if c == '"' {
+			inStr = true
+			out = append(out, c)
+			continue
+		}
+		if c >= '0' && c <= '9' {
+			j := i
+			for j < len(b) && b[j] >= '0' && b[j] <= '9' {
+				j++
+			}
+			if j-i > 10 || (j-i == 10 && string(b[i:j]) > "2147483647") {
+				out = append(out, []byte("2147483647")...)
+			} else {
+				out = append(out, b[i:j]...)
+			}
+			i = j - 1
+			continue
+		}
+		out = append(out, c)
+	}
+	return out
 }
 func (t *TraceWriter) Close() { t.w.Flush(); t.f.Close() }
 
